@@ -31,7 +31,9 @@ JudgeState(st) ==
   LET p == st.pending  ex == ObsExecuted(st) IN
   Tag(NoDup(p), "Inv.PendingNoDuplicates") \o
   Tag(Set(p) \cap ex = {}, "Inv.ExecutedNotPending") \o
-  Tag(\A i \in 1..Len(st.existed) : st.existed[i] = (i \in Set(p) \/ i \in ex), "Inv.LookupAgrees") \o
+  (* (lookupSkipped: the projection did not call IsExisted - the state before a scheduled lock-free
+     lookup must not have been looked up by the observer itself) *)
+  Tag(st.lookupSkipped \/ \A i \in 1..Len(st.existed) : st.existed[i] = (i \in Set(p) \/ i \in ex), "Inv.LookupAgrees") \o
   Tag(\A i \in 1..Len(st.found) : st.found[i] = (i \in Set(p) \/ i \in ex), "Inv.GetTransactionAgrees")
 
 JudgeAdd(e) ==
